@@ -42,7 +42,11 @@ def verify_variant(contract, variant_name, timeout_ms=10000, registry=None):
         status = "error"
         message = traceback.format_exc()
     refuted = []
-    if status == "unsupported" and "needs an invariant" in message and not getattr(contract, "no_refute", False):
+    undecided_obs = status == "ok" and any(
+        (o.status == "unknown" and o.kind not in ("model_limit",))
+        or (o.status == "sat" and o.kind in ("inv_entry", "inv_preserved", "hint", "lemma", "decreases", "frame"))
+        for o in sh.obligations)
+    if ((status == "unsupported" and "needs an invariant" in message) or undecided_obs) and not getattr(contract, "no_refute", False):
         # The code left the verified subset through a loop that has no invariant (typically: the function was edited).
         # Bounded refutation: explore executions with at most K iterations per such loop. Obligations that fail there fail for
         # real inputs (their counter-models are replayed natively); nothing is counted as proved in this mode.
@@ -60,8 +64,10 @@ def verify_variant(contract, variant_name, timeout_ms=10000, registry=None):
             message += " | bounded refutation stopped: %s" % (str(e_)[:200],)
         except Exception:
             message += " | bounded refutation crashed: %s" % traceback.format_exc()[-400:]
+        if undecided_obs:
+            message = "bounded refutation after undecided obligations"
         for o in sh2.obligations:
-            if o.status == "sat" and o.kind not in ("model_limit",):
+            if o.status == "sat" and o.kind not in ("model_limit", "lemma", "inv_entry", "inv_preserved", "hint"):
                 o.label = o.label + " (bounded refutation, <= 3 loop iterations)"
                 refuted.append(o)
         sh.obligations.extend(refuted)
@@ -120,6 +126,7 @@ def run_path(eng, contract, types, src):
                 sh.cover["requires"] = r
                 if r == "unsat":
                     raise RuntimeError("vacuous: requires of %s is unsatisfiable" % contract.key)
+            eng.pc_entry_len = len(eng.pc)
             eng.env0 = eng.clause_env(env)
             eng.alloc0 = eng.alloc_term()
             eng.heap0 = dict(eng.heap)
